@@ -36,7 +36,7 @@ def run_pipeline(spec: Dict[str, Any]) -> Dict[str, Any]:
     import reactivex
     from reactivex import Observable
     from reactivex.testing import ReactiveTest as R
-    ctx = cat.Ctx(spec["seed"], spec.get("fault_at"), spec.get("hot", False) or bool(spec.get("poke")))
+    ctx = cat.Ctx(spec["seed"], spec.get("fault_at"), spec.get("hot", False) or bool(spec.get("poke")), spec.get("fault_kind"))
     s = ctx.s
     try:
         ys, flags = cat.build_pipeline(ctx, spec["names"], spec.get("form", "pipe"))
@@ -166,7 +166,10 @@ def run_pipeline(spec: Dict[str, Any]) -> Dict[str, Any]:
     ev.append({"e": "tick", "t": rank + 1})
     ev.append({"e": "end"})
     strict = "recover" not in flags
-    return {"trace": {"strict": strict, "ev": ev}, "skip": None, "flags": sorted(flags), "nsubs": sid,
+    # the pipeline is one window/group operator and the sink subscribes to what it hands out: a fault is the operator's own
+    own = len(spec["names"]) == 1 and "obs_out" in flags and not spec.get("ignore_groups")
+    solo = len(spec["names"]) == 1 and "queued" not in flags
+    return {"trace": {"strict": strict, "own": own, "solo": solo, "ev": ev}, "skip": None, "flags": sorted(flags), "nsubs": sid,
             "ngroups": len(groups), "ncb": ctx.ncb}
 
 
@@ -200,11 +203,15 @@ def attribute(ev: List[Dict[str, Any]], upto: int, strict: bool) -> Tuple[str, s
     if k == "escape":
         return ("C09", "a user function's exception propagated into the emitter / scheduler")
     if k in ("sink", "gout"):
+        if faulted and not stopped and not disposed and (k == "gout" or e.get("k") != "E"):   # only judged for solo pipelines
+            return ("C09", "after a user function raised the subscriber was given something other than the error")
         if stopped:
             return ("C01", "notification after the terminal one")
         if disposed:
             return ("C03", "notification after dispose() returned")
     if k in ("tick", "end"):
+        if stopped and faulted and live:
+            return ("C09", f"windows/groups {sorted(live)} handed out by the failed operator never received a terminal notification")
         if stopped and not live:
             return ("C02", f"source subscriptions {sorted(opened)} still open after termination")
         if disposed and not live:
@@ -237,7 +244,7 @@ def validate(ck, pid: str, specs: List[Dict[str, Any]], label: str) -> Dict[str,
         if r["trace"] is None:
             key = r["skip"].split(":")[0] + ":" + "+".join(sp["names"])
             skips[key] = skips.get(key, 0) + 1
-    traces = [{"strict": r["trace"]["strict"], "ev": [{k: v for k, v in e.items() if k in ("e", "id", "k", "g", "r", "o", "t")} for e in r["trace"]["ev"]]}
+    traces = [{"strict": r["trace"]["strict"], "own": r["trace"].get("own", False), "solo": r["trace"].get("solo", False), "ev": [{k: v for k, v in e.items() if k in ("e", "id", "k", "g", "r", "o", "t")} for e in r["trace"]["ev"]]}
               for sp, r in good]
     rejected, ress = tracecheck.validate("LifecycleTrace", CONSTS, traces, timeout=900)
     for r in ress:
@@ -309,6 +316,8 @@ def _dims(rnd, dims):
         d["dispose_groups"] = rnd.random() < 0.5
     if dims.get("fault"):
         d["fault_at"] = rnd.choice([1, 1, 2, 3])
+        if dims.get("fault") == "stop":
+            d["fault_kind"] = "stop"
     if dims.get("junk"):
         d["junk"] = rnd.choice([1, 2, 3, 4])
     if dims.get("sink_raise"):
@@ -337,7 +346,7 @@ def replay(rec) -> int:
     if r["trace"] is None:
         print("replay: pipeline skipped:", r["skip"])
         return 2
-    tr = {"strict": r["trace"]["strict"], "ev": [{k: v for k, v in e.items() if k in ("e", "id", "k", "g", "r", "o", "t")} for e in r["trace"]["ev"]]}
+    tr = {"strict": r["trace"]["strict"], "own": r["trace"].get("own", False), "solo": r["trace"].get("solo", False), "ev": [{k: v for k, v in e.items() if k in ("e", "id", "k", "g", "r", "o", "t")} for e in r["trace"]["ev"]]}
     rejected, _ = tracecheck.validate("LifecycleTrace", CONSTS, [tr])
     for e in r["trace"]["ev"]:
         print("  ", e)
